@@ -258,3 +258,26 @@ Proof.
   - pose proof (small_loop_sound s table n PT (S (N.to_nat n)) 0%N (mkS m [] 0%N) G) as L.
     destruct (small_loop _ _ _ _ _) as [st|]; simpl in L; auto.
 Qed.
+
+(* executable well-formedness test for constraints (used by examples and by the driver) *)
+Fixpoint nodupb (l : list var) : bool :=
+  match l with [] => true | h :: t => negb (existsb (N.eqb h) t) && nodupb t end.
+Definition wf_lcb (c : lincst) : bool :=
+  nodupb (map snd (le_terms (lc_exp c))) && forallb (fun p => negb (fst p =? 0)) (le_terms (lc_exp c)).
+
+Lemma nodupb_sound l : nodupb l = true -> NoDup l.
+Proof.
+  induction l as [|h t IH]; simpl; intros H; [constructor|].
+  apply andb_true_iff in H. destruct H as [H1 H2]. constructor; auto.
+  intros I. apply negb_true_iff in H1.
+  assert (existsb (N.eqb h) t = true) by (apply existsb_exists; exists h; split; auto; apply N.eqb_refl).
+  congruence.
+Qed.
+
+Lemma wf_lcb_sound c : wf_lcb c = true -> wf_lc c.
+Proof.
+  unfold wf_lcb, wf_lc, wf_le. intros H. apply andb_true_iff in H. destruct H as [H1 H2]. split.
+  - apply nodupb_sound; auto.
+  - intros k v I. rewrite forallb_forall in H2. specialize (H2 _ I). simpl in H2.
+    apply negb_true_iff in H2. apply Z.eqb_neq in H2. auto.
+Qed.
